@@ -25,7 +25,15 @@ func main() {
 	overlay := flag.String("overlay", "", "self-test only: JSON {file: content} overlay")
 	only := flag.String("only", "", "dev: restrict to one rule id")
 	list := flag.Bool("list", false, "print the rule registry (markdown) and exit")
+	writeInv := flag.String("write-inventory", "", "dev: write the baseline function inventory of -repo to this file and exit")
 	flag.Parse()
+	if *writeInv != "" {
+		if err := core.WriteInventory(*repo, *writeInv); err != nil {
+			fmt.Fprintln(os.Stderr, err)
+			os.Exit(2)
+		}
+		return
+	}
 	if *list {
 		for _, pid := range rules.Properties() {
 			txt := rules.PropertyText[pid]
